@@ -784,6 +784,9 @@ def utf8_valid(bs):
 def m_from_utf8(c, call, v):
     bs = list(seq_of(v))
     if c.branch(utf8_valid(bs)): return Ok(StrV(bs))
+    if call.key == 'String::from_utf8':
+        e = Opaque('FromUtf8Error'); e.bytes = bs           # String::from_utf8 hands the bytes back in its error
+        return Err(e)
     return Err(Opaque('Utf8Error'))
 
 
@@ -863,6 +866,47 @@ def m_str_split(c, call, s, *a):
         parts.append(StrV(bs[start:p])); start = p + 1
     parts.append(StrV(bs[start:]))
     return IterV(parts)
+
+
+@reg('str::split_once', 'str::rsplit_once')
+def m_str_split_once(c, call, s, pat):
+    s = deref(s); k = conc(deref(pat))
+    if k is None or k >= 0x80: raise Unsupported('split_once pattern')
+    bs = s.b; pos = split_positions(c, bs, k)
+    if not pos: return NONE()
+    p = pos[0] if call.key == 'str::split_once' else pos[-1]
+    return Some(Tup([StrV(bs[:p]), StrV(bs[p + 1:])]))
+
+
+def _is_ascii_ws(b):
+    return z3.Or(b == 0x20, b == 0x09, b == 0x0a, b == 0x0c, b == 0x0d)
+
+
+@reg('slice::trim_ascii', 'slice::trim_ascii_start', 'slice::trim_ascii_end', 'str::trim_ascii', 'str::trim_ascii_start', 'str::trim_ascii_end')
+def m_trim_ascii(c, call, s):
+    v = deref(s); bs = list(seq_of(v))
+    i, j = 0, len(bs)
+    if not call.key.endswith('_end'):
+        while i < j and c.branch(_is_ascii_ws(bs[i])): i += 1
+    if not call.key.endswith('_start'):
+        while j > i and c.branch(_is_ascii_ws(bs[j - 1])): j -= 1
+    return StrV(bs[i:j]) if isinstance(v, StrV) else SliceV(bs[i:j])
+
+
+@reg('FromUtf8Error::into_bytes')
+def m_fromutf8err_into_bytes(c, call, e):
+    e = deref(e)
+    return VecV(list(e.bytes))
+
+
+@reg('FromUtf8Error::utf8_error')
+def m_fromutf8err_err(c, call, e): return Opaque('Utf8Error')
+
+
+@reg('i32::from_be_bytes', 'u32::from_be_bytes', 'u64::from_be_bytes', 'i64::from_be_bytes', 'u16::from_be_bytes', 'usize::from_be_bytes')
+def m_from_be_bytes(c, call, arr):
+    bs = list(items_of(deref(arr)))
+    return z3.simplify(z3.Concat(*bs)) if len(bs) > 1 else bs[0]
 
 
 @reg('str::trim_start_matches')
